@@ -126,8 +126,7 @@ def parseLines (bounded : Bool) : List Line → Option (List (Bytes × Option By
       if (splitOn 58 addr).length != 2 then none
       else if fields.getD 3 [] != [45] then
         (parseLines bounded rest).map fun more => (fields.getD 0 [], some (fields.getD 3 []), []) :: more
-      else if fields.length < 9 then none
-      else match parseSlots bounded (fields.drop 8) with
+      else match parseSlots bounded (fields.drop 8) with   -- a master without slots has no ninth field
         | none => none
         | some slots => (parseLines bounded rest).map fun more => (fields.getD 0 [], none, slots) :: more
 
